@@ -232,11 +232,7 @@ func compoundMatches(n structure, c compound) bool {
 		found := false
 		for _, a := range n[9].([]value) {
 			as := a.(structure)
-			k, ok := as[1].(string)
-			if !ok {
-				panic(unsupported{"symbolic attribute key in selector matching"})
-			}
-			if k != at.key {
+			if !decideT(strEq(as[1], at.key)) {
 				continue
 			}
 			// cascadia: any attribute of that name whose value passes
